@@ -14,7 +14,36 @@ use truc::record::definition::convert::convert_record_definition;
 use truc::record::definition::DatumDefinition;
 use truc::record::type_resolver::{DynamicTypeInfo, HostTypeResolver, StaticTypeResolver, TypeInfo, TypeResolver};
 
+use truc::generator::config::GeneratorConfig;
+use truc::generator::fragment::{FragmentGenerator, FragmentGeneratorSpecs};
+
 type B = NativeRecordDefinitionBuilder<HostTypeResolver>;
+
+// Custom fragment generators of the GENEV scenarios (C19): each writes, as a comment of the generated
+// module, which variant it was invoked for and the data lists it was handed, in the order it got them.
+fn genev_line(who: &str, specs: &FragmentGeneratorSpecs) -> String {
+    let ids = |v: &Vec<&DatumDefinition<NativeDatumDetails>>| v.iter().map(|d| format!("{}", d.id())).collect::<Vec<_>>().join(",");
+    format!(
+        "// {} variant {} data [{}] minus [{}] plus [{}]",
+        who,
+        specs.record.variant.id(),
+        ids(&specs.record.data),
+        ids(&specs.record.minus_data),
+        ids(&specs.record.plus_data)
+    )
+}
+struct VerifCustomA;
+impl FragmentGenerator for VerifCustomA {
+    fn generate(&self, specs: &FragmentGeneratorSpecs, scope: &mut codegen::Scope) {
+        scope.raw(genev_line("VerifCustomA", specs));
+    }
+}
+struct VerifCustomB;
+impl FragmentGenerator for VerifCustomB {
+    fn generate(&self, specs: &FragmentGeneratorSpecs, scope: &mut codegen::Scope) {
+        scope.raw(genev_line("VerifCustomB", specs));
+    }
+}
 
 fn add(b: &mut B, name: &str, size: u64, align: u64) -> Result<DatumId, String> {
     b.add_datum_override::<(), _>(
@@ -725,7 +754,19 @@ fn main() {
     }
     let built = catch_unwind(AssertUnwindSafe(|| b.build()));
     match built {
-        Ok(def) => obs.check_definition(&def),
+        Ok(def) => {
+            obs.check_definition(&def);
+            if sc.get("generate").and_then(|g| g.as_bool()).unwrap_or(false) {
+                let text = catch_unwind(AssertUnwindSafe(|| {
+                    let custom: Vec<Box<dyn FragmentGenerator>> = vec![Box::new(VerifCustomA), Box::new(VerifCustomB)];
+                    truc::generator::generate(&def, &GeneratorConfig::default_with_custom_generators(custom))
+                }));
+                match text {
+                    Ok(text) => println!("generated code ({} bytes):\n{}", text.len(), text),
+                    Err(_) => obs.fail("C13: generate() panicked".to_string()),
+                }
+            }
+        }
         Err(_) => obs.fail("C13: build() panicked".to_string()),
     }
     println!("REPLAY-DONE fails={}", obs.fails.len());
